@@ -116,6 +116,13 @@ fn mutate(tree: &MerkleTree<H>, n: usize, idx: &[usize], count: &mut u64) {
             rejected(tree, n, idx, &p, &format!("node [{a}][{b}] replaced"));
             *count += 1;
         }
+        {
+            // an extra digest appended to a node vector must not be ignored
+            let mut p = cl(&honest);
+            p.nodes[a].push(other);
+            rejected(tree, n, idx, &p, &format!("extra node appended to vector {a}"));
+            *count += 1;
+        }
         if !honest.nodes[a].is_empty() {
             let mut p = cl(&honest);
             p.nodes[a].pop();
